@@ -18,7 +18,7 @@ class RefPeer:
         self.rng = random.Random(seed ^ 0x9E3779B1)
         p = {'reply_ms': (0, 5), 'holds': (0, 0), 'hold_gap_ms': (10, 400), 'window': None, 'rts_limit': 255,
              'dt_gap_ms': (0, 2), 'bam_gap_ms': (50, 60) if not fd else (10, 20), 'stop_after_tx': None,
-             'abort_at_rx': None, 'ack': True}
+             'abort_at_rx': None, 'ack': True, 'silent_after_holds': False}
         p.update(policy or {})
         self.p = p
         self.port = bus.port(name)
@@ -166,6 +166,8 @@ class RefPeer:
             s['holds'] -= 1
             self.stats['holds_sent'] += 1
             self.send(7, 0, rc.PF_TP_CM, s['sa'], rc.tp_cts(0, 0xFF, s['pgn']))
+            if self.p['silent_after_holds'] and s['holds'] == 0:
+                return          # the responder dies while holding the connection
             self.sim.after(self._ms('hold_gap_ms'), lambda: self._cts21(s), 'peer')
             return
         remaining = s['npk'] - s['next'] + 1
@@ -306,6 +308,8 @@ class RefPeer:
             s['holds'] -= 1
             self.stats['holds_sent'] += 1
             self.send(7, 0, rc.PF_FD_TP_CM, s['sa'], rc.fd_cts(s['session'], s['next'], 0, s['pgn']))
+            if self.p['silent_after_holds'] and s['holds'] == 0:
+                return          # the responder dies while holding the connection
             self.sim.after(self._ms('hold_gap_ms'), lambda: self._cts22(s), 'peer')
             return
         remaining = s['npk'] - s['next'] + 1
